@@ -1,8 +1,14 @@
 ----------------------------- MODULE InternerMC -----------------------------
-(* Model-checking instances of Interner.tla (constants that a .cfg file     *)
+(* Model-checking instances of Interner.tla (definitions that a .cfg file   *)
 (* cannot express).                                                         *)
 EXTENDS Interner
 
 NoCodec == {}
-Codec2 == {<<1, 2>>, <<1, 1>>, <<1, 2, 1>>}
+Codec3 == {<<1, 1>>, <<1, 2>>, <<1, 2, 1>>}
+
+Sym == Permutations(Threads) \cup Permutations(Types) \cup Permutations(Values)
+SymA == Sym \cup Permutations(Allocs)
+SymC == Permutations(Types) \cup Permutations(Values) \cup Permutations(Allocs)
+Codec1 == {<<1, 2, 1>>}
+NoThreads == {}
 =============================================================================
